@@ -370,6 +370,9 @@ class ParseTreeBuilder:
 
             user_callback_name = rule.alias or rule.options.template_source or rule.origin.name
             try:
+                if rule.origin.name.startswith('_'):
+                    # The children of an inlined rule are spliced into its parent: its node never reaches a transformer
+                    raise AttributeError(user_callback_name)
                 f = getattr(transformer, user_callback_name)
                 wrapper = getattr(f, 'visit_wrapper', None)
                 if wrapper is not None:
